@@ -58,8 +58,19 @@ def collect(h):
     strict = re.search(r"if syncID >= g\.nextRecordID(.*?)\{\s*g\.nextRecordID = syncID \+ 1", body, re.S)
     if not strict:
         raise h.Missing(f"{rel}: UpdateOnSync changed shape")
-    # a guard added to the condition (e.g. an upper bound on syncID) is recorded so that the wrap-around obligations re-open
-    items.append(("c04_update_on_sync_guarded", "bool", "true" if strict.group(1).strip() else "false", rel))
+    # the largest syncID UpdateOnSync reacts to: no guard = MaxUint64 (then syncID+1 wraps), `syncID < math.MaxUint64`
+    # = MaxUint64-1, an early return for `syncID > istructs.MaxRecordID` = MaxRecordID; anything else is a hard error
+    extra = strict.group(1).strip()
+    early = re.search(r"if syncID > istructs\.MaxRecordID \{[^}]*return[^}]*\}", body, re.S)
+    if early and extra == "":
+        limit = bound
+    elif not early and extra == "":
+        limit = 2**64 - 1
+    elif not early and re.fullmatch(r"&& syncID < math\.MaxUint64", extra):
+        limit = 2**64 - 2
+    else:
+        raise h.Missing(f"{rel}: cannot read the upper bound UpdateOnSync puts on syncID ({extra!r})")
+    items.append(("c04_update_on_sync_limit", "N", str(limit), rel))
     rel = "pkg/istructsmem/event-types.go"
     body = h.func_body(rel, r"^func \(o \*objectType\) regenerateIDs\(", "objectType.regenerateIDs")
     # does the argument pass advance the generator past explicit (synced) IDs?
